@@ -379,9 +379,11 @@ PPL::Dense_Row::operator=(const Sparse_Row& row) {
       }
     }
     else {
-      // Reallocation is required.
-      destroy();
-      init(row);
+      // Reallocation is required: build the new row aside and swap it in,
+      // so that nothing is released before the allocation has succeeded
+      // (destroy() would leave impl.vec dangling if init() throws).
+      Dense_Row tmp(row);
+      m_swap(tmp);
     }
   }
   PPL_ASSERT(size() == row.size());
